@@ -32,3 +32,23 @@ for _k, (_v, _u, _d) in _PC.items():
         unwind=_u, timeout=900, expect_canaries=2, functions=['opus_packet_parse_impl'],
         defines=['-DVERIF_PARSE_CASE(data,len,sd)=' + _v] + _d,
         what='opus_packet_parse_impl clauses E2-E9 asserted after a direct call (H style), sub-case ' + _k + ', len unbounded'))
+
+for _k, (_v, _u, _d) in _PC.items():
+    if _k.startswith('c3_'):
+        GROUPS.append(dict(name='parse_hs_' + _k, cls='P', tu='C06_parse_h.c', entry='h_parse_h', canary='real',
+            unwind=_u, timeout=900, expect_canaries=2, functions=['opus_packet_parse_impl'], mem_gb=20,
+            defines=['-DVERIF_PARSE_CASE(data,len,sd)=' + _v, '-DVERIF_PARSE_LC_SIMPLE'] + _d,
+            what='H style, all reachable loops under contract, sub-case ' + _k))
+
+
+# H style, every reachable loop under contract; CBR cases additionally split by count range (the
+# sum-of-equal-frames == len fact is a 31-bit multiplication/division identity: 34 s on its own for count<=48,
+# 2 s for count<=8)
+for (lo, hi) in ((1, 8), (9, 16), (17, 32), (33, 48)):
+    for pad in (0, 1):
+        for sd in (0, 1):
+            _v = '(len>=2 && ((data)[0]&3)==3 && (((data)[1]&0x40)!=0)==%d && (((data)[1]&0x80)!=0)==0 && ((sd)!=0)==%d && ((data)[1]&0x3F)>=%d && ((data)[1]&0x3F)<=%d)' % (pad, sd, lo, hi)
+            GROUPS.append(dict(name='parse_hc_p%d_s%d_n%d' % (pad, sd, lo), cls='P', tu='C06_parse_h.c', entry='h_parse_h', canary='real',
+                unwind=49, timeout=1200, expect_canaries=2, functions=['opus_packet_parse_impl'], mem_gb=20,
+                defines=['-DVERIF_PARSE_CASE(data,len,sd)=' + _v, '-DVERIF_PARSE_LC_SIMPLE'] + (['-DVERIF_PARSE_LC_PAD'] if pad else []),
+                what='H style, CBR code 3, count in %d..%d, pad=%d, self_delimited=%d; all loops under contract, len unbounded' % (lo, hi, pad, sd)))
